@@ -56,12 +56,15 @@ def clear (l : Lfu) : Lfu := { l with costs := [], used := 0 }
 def updateMaxCost (l : Lfu) (mc : Int) : Lfu := { l with maxCost := mc }
 
 /-- What `fill_sample` may append to a sample of length `n`: nothing when the sample is full;
-otherwise a duplicate-free run of charged keys with their current costs, as many as are missing,
-or all charged keys if there are fewer. -/
+otherwise a duplicate-free run of charged keys with their current costs, never more than are missing,
+bringing the sample to `samples` entries — or, when the residents do not suffice, to at least as many
+entries as there are charged keys ("five, or all if fewer"; the code as it stands appends every charged
+key then, a refill that skips keys already sampled appends the others: both are valid). -/
 def validRefill (l : Lfu) (n : Nat) (extras : List (Nat × Int)) : Bool :=
   if n ≥ l.samples then extras.isEmpty
   else
-    extras.length == min (l.samples - n) l.costs.length &&
+    (decide (extras.length ≤ l.samples - n) &&
+      (n + extras.length == l.samples || decide (l.costs.length ≤ n + extras.length))) &&
     extras.all (fun p => l.costs.get p.1 == some p.2) &&
     (extras.map (·.1)).eraseDups.length == extras.length
 
